@@ -27,11 +27,23 @@ let now_sec = z_of_string "1790000000"
 
 exception Oracle_miss
 
+(* known finding C06-unary-exists: in existence mode (Exists, or exists() in lax
+   mode) a unary + or - that is the last step of its chain hands a non-numeric
+   operand on as if it were a result *)
+let last_is_unary (c : chain) : bool =
+  match List.rev c with
+  | SUn ((UPlus | UMinus), _) :: _ -> true
+  | _ -> false
+let unary_quirk (p : path) : bool =
+  last_is_unary p.p_root ||
+  chain_has (function SUn (UExists, a) -> last_is_unary a | _ -> false) p.p_root
+
 let () =
   let file = Sys.argv.(1) in
   let ic = open_in file in
   let ncases = ref 0 and nruns = ref 0 and nties = ref 0 and npolls = ref 0
-  and nskip = ref 0 and nimpure = ref 0 and nmiss = ref 0 and ncmp = ref 0 in
+  and nskip = ref 0 and nimpure = ref 0 and nmiss = ref 0 and ncmp = ref 0
+  and nspec = ref 0 and nspecbad = ref 0 in
   (try
      while true do
        let line = input_line ic in
@@ -73,8 +85,43 @@ let () =
                     let kk = int_of_string k in
                     let o = { o_vars = vars; o_vars_tag = vars_tag; o_silent = silent_b; o_useTZ = usetz;
                               o_cancel_at = (if kk < 0 then None else Some (nat_of_int kk)); o_next_tag = next_tag } in
+                    let spec_obs entry q =
+                      match entry with
+                      | "query" -> obs_of_q (Ret (api_spec_query lib q path doc o))
+                      | "first" -> obs_of_f (Ret (api_spec_first lib q path doc o))
+                      | "exists" -> obs_of_b (Ret (api_spec_exists lib q path doc o))
+                      | "match" -> obs_of_b (Ret (api_spec_match lib q path doc o))
+                      | _ -> obs_of_b (Ret (api_spec_eom lib q path doc o)) in
+                    let check_spec entry impl =
+                      if kk < 0 then begin
+                        let comparable =
+                          if not unordered then true
+                          else (entry = "query" && not silent_b
+                                && (match impl with ObItems _ -> true | _ -> false)) in
+                        let un = unordered || haskv in
+                        let eq q = obs_eqb un kv impl (spec_obs entry q) in
+                        if comparable then begin
+                          incr nspec;
+                          if not (eq quirks_ideal) then begin
+                            let cls =
+                              if eq { q_skip_null = true; q_iu_swallow = false } then "C14-null-subscript"
+                              else if eq { q_skip_null = false; q_iu_swallow = true } then "C11-isunknown-hard-error"
+                              else if eq quirks_code then "C14-null-subscript+C11-isunknown-hard-error"
+                              else if unary_quirk path then "C06-unary-exists"
+                              else "NONE" in
+                            if !missed then incr nmiss
+                            else begin
+                              incr nspecbad;
+                              Printf.printf "SPEC %s %s %s silent=%b class=%s impl=%s spec=%s text=%s\n"
+                                id family entry silent_b cls (string_of_obs impl)
+                                (string_of_obs (spec_obs entry quirks_ideal)) (qs text)
+                            end
+                          end
+                        end
+                      end in
                     let check entry impl_s model_obs =
                       let impl = obs_of_sexp impl_s in
+                      check_spec entry impl;
                       incr ncmp;
                       (* unordered cases: only successful verbose-independent Query results are comparable *)
                       let comparable =
@@ -116,5 +163,5 @@ let () =
        end
      done
    with End_of_file -> ());
-  Printf.printf "SUMMARY cases=%d runs=%d comparisons=%d ties=%d polls=%d impure=%d skipped=%d oracle_miss=%d\n"
-    !ncases !nruns !ncmp !nties !npolls !nimpure !nskip !nmiss
+  Printf.printf "SUMMARY cases=%d runs=%d comparisons=%d ties=%d polls=%d impure=%d skipped=%d oracle_miss=%d spec_comparisons=%d spec_mismatches=%d\n"
+    !ncases !nruns !ncmp !nties !npolls !nimpure !nskip !nmiss !nspec !nspecbad
